@@ -77,8 +77,9 @@ func vC17Check(r *verifkit.Run, sim *verifledger.Sim, where string) {
 		w := map[string]any{"asset": a.String(), "where": where, "recorded_total": total.String(), "reference_supply": ref.String(),
 			"unconsumed_outputs_in_store": sc.String(), "unconsumed_outputs_reference": ru.String(), "info_present": info != nil}
 		if ref.Cmp(ru) != 0 {
-			r.Inconclusive(fmt.Sprintf("reference ledger is inconsistent with itself for %s (%s vs %s)", a, ref, ru))
-			return
+			// the finalized history itself does not conserve value (a transaction whose outputs differ from its
+			// inputs was finalized): the store comparisons below report it
+			r.Count("reference_supply_differs_from_reference_unspent", 1)
 		}
 		if total.Cmp(ref) != 0 {
 			r.Violation("C17|total-differs-from-supply|"+where, fmt.Sprintf("recorded total %s differs from genesis+deposits+mints-withdrawals = %s", total, ref), w)
@@ -208,6 +209,32 @@ func TestVerif_C17(t *testing.T) {
 			batch = []*verifSDTx{rival}
 			flush()
 			continue
+		}
+		// hostile candidates: a transfer whose outputs are worth more (or less) than its inputs; if validation
+		// lets one through and it is finalized, the scan below sees the supply drift
+		if c.Kind == "transfer" && len(c.Ins) > 0 && rng.Intn(6) == 0 {
+			total := new(big.Int)
+			for _, o := range c.Ins {
+				total.Add(total, verifgen.UnitsOf(o.Amount))
+			}
+			delta := big.NewInt(int64(1 + rng.Intn(1000)))
+			cls := "inflating"
+			if rng.Intn(2) == 0 && total.Cmp(big.NewInt(2000)) > 0 {
+				delta.Neg(delta)
+				cls = "deflating"
+			}
+			spec := d.w.Spec(verifgen.Units(new(big.Int).Add(total, delta)), 2)
+			raw := verifgen.BuildTx(c.Ins[0].Asset, c.Ins, []verifgen.OutSpec{spec}, []byte(cls), nil)
+			bad := &verifSDTx{Kind: "transfer", Tx: verifgen.SignMap(raw, c.Ins, verifgen.FirstN(c.Ins)), Specs: []verifgen.OutSpec{spec}}
+			if err := sim.Admit(bad.Tx, ts); err != nil {
+				r.Count("rejected_"+cls+"_transfer", 1)
+			} else {
+				r.Count("ACCEPTED_"+cls+"_transfer_(C01_territory)", 1)
+				flush()
+				batch = []*verifSDTx{bad}
+				flush()
+				continue
+			}
 		}
 		var verr error
 		if c.Kind == "transfer" && rng.Intn(7) == 0 {
